@@ -25,6 +25,10 @@ type Obligation struct {
 	LemmasUsed []string // proved lemmas that were available as axioms in this obligation's query
 	// counterexample replay (scalar functions only; nil otherwise)
 	Replay *ReplaySpec
+	// for ensures obligations: position of the clause in the contract and the return it belongs to (later clauses are
+	// proved with the earlier ones as hypotheses)
+	EnsIdx int
+	RetTag string
 	// results
 	Res *SolveResult
 }
@@ -120,6 +124,8 @@ type Exec struct {
 	loopCoverPos map[string]string
 	coverPos   map[string]string
 	curRets    []*Term
+	curEnsIdx  int
+	curRetTag  string
 	replayOff  bool
 	deferIdx   map[*ast.DeferStmt]int
 	discardCall *ast.CallExpr // the call of the expression statement being executed (its results are discarded)
@@ -240,7 +246,7 @@ func (x *Exec) oblige(s *State, kind, label string, goal *Term, text, pos string
 	}
 	hyps := append([]*Term(nil), s.pc...)
 	hyps = append(hyps, x.guard...)
-	ob := &Obligation{Func: x.fi.Name, Name: name, Kind: kind, Hyps: hyps, Goal: goal, Mode: x.mode, Text: text, Pos: pos, LemmaIndex: -1}
+	ob := &Obligation{Func: x.fi.Name, Name: name, Kind: kind, Hyps: hyps, Goal: goal, Mode: x.mode, Text: text, Pos: pos, LemmaIndex: -1, EnsIdx: x.curEnsIdx, RetTag: x.curRetTag}
 	if (kind == "ensures" || kind == "nopanic") && x.entryState != nil && !x.replayOff {
 		func() {
 			defer func() {
@@ -1435,6 +1441,7 @@ func (x *Exec) finishReturn(s *State, vals []*Term, entry *State, tag string, li
 			label = fmt.Sprintf("%d", i+1)
 		}
 		goal := x.trBool(e.Expr, env)
+		x.curEnsIdx, x.curRetTag = i+1, tag
 		if strings.HasPrefix(e.Label, "assumed") {
 			// a postcondition that links the code to an abstraction of a library data structure: used by callers,
 			// not checked against the body; listed among the assumptions
@@ -1445,6 +1452,7 @@ func (x *Exec) finishReturn(s *State, vals []*Term, entry *State, tag string, li
 		// later postconditions may use earlier ones (all of them must hold)
 		s.assume(goal)
 	}
+	x.curEnsIdx, x.curRetTag = 0, ""
 	x.checkFrame(s, entry, x.c.Assigns, x.c.HasAssigns, "frame", tag, x.envFor(entry, entry, token.NoPos))
 }
 
